@@ -4,9 +4,9 @@ package interp
 
 import (
 	"bufio"
-	"os"
 	"fmt"
 	"io"
+	"os"
 	"os/exec"
 	"strconv"
 	"strings"
@@ -34,15 +34,16 @@ func (k SolverKind) String() string {
 }
 
 type Solver struct {
-	kind      SolverKind
-	cmd       *exec.Cmd
-	in        io.WriteCloser
-	out       *bufio.Reader
-	timeoutMs int
-	Queries   int
-	Time      time.Duration
-	log       io.Writer // optional transcript
-	dead      bool
+	recycledAt int // value of Queries when this process was started
+	kind       SolverKind
+	cmd        *exec.Cmd
+	in         io.WriteCloser
+	out        *bufio.Reader
+	timeoutMs  int
+	Queries    int
+	Time       time.Duration
+	log        io.Writer // optional transcript
+	dead       bool
 }
 
 func NewSolver(kind SolverKind, timeoutMs int) (*Solver, error) {
